@@ -38,7 +38,7 @@ META = {
     "assumptions": ["hash_mode=mixed (unbounded symbolic numbers hash to a constant)"],
 }
 
-QUERIES = ["q:w->m", "q:base(w)", "q:parse(kkw)", "q:compat(m)", "q:dim(w/s)"]
+QUERIES = ["q:w->m", "q:base(w)", "q:parse(kkw)", "q:parse(Kw)", "q:compat(m)", "q:dim(w/s)"]
 CHANGES = ["define", "enable:c1", "enable:c3", "enable:c4", "disable:1", "disable:all", "system:sysA", "system:sysB", "system:None", "other-registry"]
 
 
@@ -81,6 +81,12 @@ def _answers(eng, ureg, x, keep=None):
     ask("parse(kkw)", lambda: dict(ureg.parse_units("kkw")._units))
     ask("parse(w/s)", lambda: dict(ureg.parse_units("w/s")._units))
     ask("parse(nu)", lambda: dict(ureg.parse_units("nu")._units))
+    ask("parse(Kw)", lambda: dict(ureg.parse_units("Kw")._units))
+    ask("parse(Kws)", lambda: dict(ureg.parse_units("Kws")._units))
+    ask("parse(kkKw)", lambda: dict(ureg.parse_units("kkKw")._units))
+    ask("parse(KU_s)", lambda: dict(ureg.parse_units("KU_s")._units))
+    ask("name+symbol(KU_)", lambda: (ureg.get_name("KU_"), ureg.get_symbol("KU_"), ureg.get_name("uus")))
+    ask("KU_->m", lambda: Qy(x, "KU_").to("m").magnitude)
     ask("nu-in-registry", lambda: "nu" in ureg)
     ask("root(w)", lambda: ureg.get_root_units("w"))
     ask("base(w)", lambda: ureg.get_base_units("w"))
@@ -146,6 +152,11 @@ def h_sequence(eng, ops):
         elif op == "q:parse(kkw)":
             ureg.parse_units("kkw")
             ureg.Quantity(x, "kku")
+        elif op == "q:parse(Kw)":
+            # prefixed units reached through other spellings (prefix symbol, unit symbol, alias, plural)
+            ureg.parse_units("Kw")
+            ureg.Quantity(x, "KU_").to("m")
+            ureg.get_name("kkuus")
         elif op == "q:compat(m)":
             ureg.get_compatible_units("m")
         elif op == "q:dim(w/s)":
